@@ -4,7 +4,7 @@
    stored at cache address a.  [is_target (select r targets) e]: entity e is selected by the command's targets.
    [holds f a c]: the object at a is a regular file with bytes c.  [obj_present f a]: there is an object at a. *)
 From Coq Require Import List Bool NArith.
-From XV Require Import Base.Amap Base.Bytes Repo.Model Repo.Ext Repo.ExtProofs Repo.ExtReach.
+From XV Require Import Base.Amap Base.Bytes Repo.Model Repo.Inv Repo.Ext Repo.ExtProofs Repo.ExtReach.
 Import ListNotations.
 Local Open Scope N_scope.
 
@@ -12,21 +12,21 @@ Local Open Scope N_scope.
 (* records and workspace are untouched (rm_rel: objects only disappear, inodes keep their bytes); without --force
    an object disappears only if EVERY entity that refers to it is a target; an ambiguous --only-version prefix
    returns Err and the repository unchanged (second theorem) *)
-Theorem remove_respects_referrers o targets r r' oc :
-  remove_cmd o targets r = (r', oc) ->
+Theorem remove_respects_referrers fl o targets r r' oc :
+  remove_cmd fl o targets r = (r', oc) ->
   recs (base r') = recs (base r) /\ dirs r' = dirs r /\ rm_rel (xfs r) (xfs r') /\
   (rm_force o = false ->
    (forall a, obj_present (xfs r) a -> ~ obj_present (xfs r') a ->
       forall e x, In (e, x) (recs (base r)) -> refers x a = true -> is_target (select r targets) e = true) /\
    (forall e x d c, In (e, x) (recs (base r)) -> is_target (select r targets) e = false -> In d (r_hist x) ->
       holds (xfs r) (cache_addr (r_path x) d) c -> holds (xfs r') (cache_addr (r_path x) d) c)).
-Proof. exact (remove_cmd_spec o targets r r' oc). Qed.
+Proof. exact (remove_cmd_spec fl o targets r r' oc). Qed.
 Print rm_rel.
 
-Theorem remove_ambiguous_version_refused any ds f targets r :
+Theorem remove_ambiguous_version_refused fl any ds f targets r :
   (1 < length (flat_map (fun ex => filter (version_matches any ds) (addrs_of (snd ex))) (select r targets)))%nat ->
-  remove_cmd {| rm_versions := VOnly any ds; rm_force := f |} targets r = (r, Err).
-Proof. exact (remove_ambiguous any ds f targets r). Qed.
+  remove_cmd fl {| rm_versions := VOnly any ds; rm_force := f |} targets r = (r, Err).
+Proof. exact (remove_ambiguous fl any ds f targets r). Qed.
 
 (* ---- 2. + 3. untrack ------------------------------------------------------------------------------------------------------ *)
 (* objects: as for remove (there is no --force).  The other paths keep their records and every recorded version
@@ -73,6 +73,81 @@ Theorem others_stay_restorable f p a m c :
   exists f', recheck_from_cache f p a m = (f', Ok) /\ ws_read f' p = Some c.
 Proof. exact (restorable f p a m c). Qed.
 
+(* ---- 4. the directories of the cache files that stay (finding P50 of C02, repaired in XvcCachePath::remove) ------------------ *)
+(* [DRO f] (Repo/Inv.v): the directory of every cache object is read-only.  XvcCachePath::remove makes the directory
+   writable to delete the file; when the directory is empty afterwards it is removed, otherwise -- it holds the same
+   content under another extension -- the repaired code (switch fixed_P50, read from core/src/types/xvcpath.rs on every
+   run) sets it read-only again.  With the switch on, remove --from-cache and untrack keep DRO for EVERY repository state,
+   option set and target list; the code before the repair does not (removal_leaves_directory_writable_refuted). *)
+Definition C02_removal_keeps_directories_readonly (fl : flags) : Prop :=
+  forall r, DRO (xfs r) ->
+    (forall o targets, DRO (xfs (fst (remove_cmd fl o targets r)))) /\
+    (forall targets, DRO (xfs (fst (untrack_cmd fl targets r)))).
+Print DRO.
+
+Theorem remove_keeps_directories_readonly fl o targets r :
+  fixed_P50 fl = true -> DRO (xfs r) -> DRO (xfs (fst (remove_cmd fl o targets r))).
+Proof. exact (remove_cmd_DRO fl o targets r). Qed.
+Theorem untrack_keeps_directories_readonly fl targets r :
+  fixed_P50 fl = true -> DRO (xfs r) -> DRO (xfs (fst (untrack_cmd fl targets r))).
+Proof. exact (untrack_cmd_DRO fl targets r). Qed.
+Theorem removal_keeps_directories_readonly_fixed fl : fixed_P50 fl = true -> C02_removal_keeps_directories_readonly fl.
+Proof.
+  exact (fun P r D => conj (fun o targets => remove_cmd_DRO fl o targets r P D) (fun targets => untrack_cmd_DRO fl targets r P D)).
+Qed.
+
+(* one XvcCachePath::remove, both values of the switch: only a deletion that leaves a sibling (another extension of the
+   same digest) in the directory, without the repair, can leave a directory writable *)
+Theorem cache_remove_keeps_directories_readonly p50 f a :
+  K_sibling_left p50 f a = false -> DRO f -> DRO (cache_remove p50 f a).
+Proof. exact (cache_remove_DRO_outside p50 f a). Qed.
+Theorem K_sibling_left_class_empty_when_fixed f a : K_sibling_left true f a = false.
+Proof. exact (K_sibling_left_empty_when_fixed_lemma f a). Qed.
+Print K_sibling_left.
+
+(* the witness: a.txt and b.dat with equal content (one digest directory, 0.txt next to 0.dat); removing the cache file of
+   b.dat (or untracking b.dat) leaves the directory of 0.txt writable in the code before the repair *)
+Definition h_p50 : list xitem :=
+  [XBase (UWrite s_a_txt s_hello); XBase (XTrack t_plain [s_a_txt]);
+   XBase (UWrite s_b_dat s_hello); XBase (XTrack t_plain [s_b_dat])].
+Definition rm_cur : remove_opts := {| rm_versions := VCurrent; rm_force := false |}.
+Definition a_hello_txt : caddr := cache_addr s_a_txt (digest_of B3 Auto s_hello).
+Definition a_hello_dat : caddr := cache_addr s_b_dat (digest_of B3 Auto s_hello).
+Definition p50_after (fl : flags) (it : xitem) : fsys := xfs (fst (do_xitem fl (run_xitems fl r0 h_p50) it)).
+
+Theorem removal_leaves_directory_writable_refuted : ~ C02_removal_keeps_directories_readonly as_is.
+Proof.
+  intros F. destruct (F (run_xitems as_is r0 h_p50)) as [R _]; [apply DRO_b_sound; vm_compute; reflexivity|].
+  specialize (R rm_cur [s_b_dat] a_hello_txt).
+  assert (O : oget (xfs (fst (remove_cmd as_is rm_cur [s_b_dat] (run_xitems as_is r0 h_p50)))) a_hello_txt <> None)
+    by (vm_compute; discriminate).
+  specialize (R O). vm_compute in R. discriminate R.
+Qed.
+Example p50_witness_as_is :           (* both commands: 0.txt stays, its directory is writable; the sibling is the class *)
+  DRO_b (xfs (run_xitems as_is r0 h_p50)) = true /\
+  a_digest a_hello_txt = a_digest a_hello_dat /\ length (objs (xfs (run_xitems as_is r0 h_p50))) = 2%nat /\
+  (forall it, In it [XRemove rm_cur [s_b_dat]; XUntrack [s_b_dat]] ->
+     snd (do_xitem as_is (run_xitems as_is r0 h_p50) it) = Ok /\
+     obj_exists (p50_after as_is it) a_hello_txt = true /\ obj_exists (p50_after as_is it) a_hello_dat = false /\
+     dget (p50_after as_is it) (a_digest a_hello_txt) = Some true /\ DRO_b (p50_after as_is it) = false) /\
+  K_sibling_left false (xfs (run_xitems as_is r0 h_p50)) a_hello_dat = true.
+Proof.
+  split; [vm_compute; reflexivity|]. split; [vm_compute; reflexivity|]. split; [vm_compute; reflexivity|].
+  split; [|vm_compute; reflexivity].
+  intros it [<-|[<-|[]]]; vm_compute; repeat split; reflexivity.
+Qed.
+Example p50_witness_fixed :           (* the repaired code: the directory of 0.txt is read-only again; the last file takes its directory with it *)
+  DRO_b (xfs (run_xitems all_fixed r0 h_p50)) = true /\ fixed_P50 all_fixed = true /\
+  (forall it, In it [XRemove rm_cur [s_b_dat]; XUntrack [s_b_dat]] ->
+     snd (do_xitem all_fixed (run_xitems all_fixed r0 h_p50) it) = Ok /\
+     obj_exists (p50_after all_fixed it) a_hello_txt = true /\ obj_exists (p50_after all_fixed it) a_hello_dat = false /\
+     dget (p50_after all_fixed it) (a_digest a_hello_txt) = Some false /\ DRO_b (p50_after all_fixed it) = true) /\
+  dget (p50_after all_fixed (XRemove rm_cur [s_a_txt; s_b_dat])) (a_digest a_hello_txt) = None.
+Proof.
+  split; [vm_compute; reflexivity|]. split; [reflexivity|]. split; [|vm_compute; reflexivity].
+  intros it [<-|[<-|[]]]; vm_compute; repeat split; reflexivity.
+Qed.
+
 (* ---- examples ------------------------------------------------------------------------------------------------------------------ *)
 (* a.txt has two versions (hello, other); b.txt (symlink) holds "hello" = the OLD version of a.txt; c.txt (hard link)
    holds "other" = the current version of a.txt *)
@@ -89,12 +164,12 @@ Example reachable_example : xreach all_fixed r_share.
 Proof. apply (xrun_reach all_fixed h_share r0); [apply xr_init|vm_compute; reflexivity]. Qed.
 Example remove_example :       (* both versions of a.txt are needed by others: nothing is deleted; with --force both go *)
   length (objs (xfs r_share)) = 2%nat /\
-  length (objs (xfs (fst (remove_cmd rm_all [s_a_txt] r_share)))) = 2%nat /\
-  length (objs (xfs (fst (remove_cmd rm_all_forced [s_a_txt] r_share)))) = 0%nat /\
-  length (objs (xfs (fst (remove_cmd rm_all [s_a_txt; s_b_txt] r_share)))) = 1%nat.
+  length (objs (xfs (fst (remove_cmd all_fixed rm_all [s_a_txt] r_share)))) = 2%nat /\
+  length (objs (xfs (fst (remove_cmd all_fixed rm_all_forced [s_a_txt] r_share)))) = 0%nat /\
+  length (objs (xfs (fst (remove_cmd all_fixed rm_all [s_a_txt; s_b_txt] r_share)))) = 1%nat.
 Proof. vm_compute. repeat split; reflexivity. Qed.
 Example remove_ambiguous_example :
-  remove_cmd {| rm_versions := VOnly true []; rm_force := false |} [s_a_txt] r_share = (r_share, Err).
+  remove_cmd all_fixed {| rm_versions := VOnly true []; rm_force := false |} [s_a_txt] r_share = (r_share, Err).
 Proof. vm_compute. reflexivity. Qed.
 Example untrack_example :      (* the symlink and the hard link end as private writable files, objects stay for a.txt *)
   let '(r', oc) := untrack_cmd all_fixed [s_b_txt; s_c_txt] r_share in
@@ -203,3 +278,9 @@ Print Assumptions untrack_missing_panics_refuted.
 Print Assumptions untrack_directory_record_refuted.
 Print Assumptions C05_full_refuted.
 Print Assumptions untrack_stale_link_refuted.
+Print Assumptions remove_keeps_directories_readonly.
+Print Assumptions untrack_keeps_directories_readonly.
+Print Assumptions removal_keeps_directories_readonly_fixed.
+Print Assumptions cache_remove_keeps_directories_readonly.
+Print Assumptions K_sibling_left_class_empty_when_fixed.
+Print Assumptions removal_leaves_directory_writable_refuted.
